@@ -337,4 +337,163 @@ theorem curveAt_below (p0 : Rat × Rat) (rest : List (Rat × Rat)) (x : Rat) (hx
     exact not_lt.mpr (le_trans hx (hlast _ hm))
   simp only [this, if_false]
 
+/-! ### the curve between its control points -/
+
+/-- once `x` is at or below the current control point, no later segment assigns to it -/
+theorem curveSegs_done (x : Rat) (prev : Rat × Rat) (ps : List (Rat × Rat)) (acc : Rat) (hle : x ≤ prev.1)
+    (hs : (prev :: ps).Pairwise (fun p q => p.1 < q.1)) : curveSegs x prev ps acc = acc := by
+  induction ps generalizing prev acc with
+  | nil => rfl
+  | cons p t ih =>
+    unfold curveSegs
+    have hn : ¬(x > prev.1) := not_lt.mpr hle
+    have hp := List.pairwise_cons.mp hs
+    simp only [decide_eq_true_eq, hn, Bool.false_and, Bool.false_eq_true, if_false, decide_false]
+    exact ih p acc (le_trans hle (le_of_lt (hp.1 p (List.mem_cons_self ..)))) hp.2
+
+/-- the segment `(p, q]` that contains `x` assigns the line through `p` and `q`; nothing after it assigns again -/
+theorem curveSegs_seg (x : Rat) (p q : Rat × Rat) (post : List (Rat × Rat)) (acc : Rat) (h1 : p.1 < x) (h2 : x ≤ q.1)
+    (hs : (q :: post).Pairwise (fun a b => a.1 < b.1)) : curveSegs x p (q :: post) acc = lin p.1 q.1 p.2 q.2 x := by
+  have hne : q.1 - p.1 ≠ 0 := by
+    have : p.1 < q.1 := lt_of_lt_of_le h1 h2
+    intro h; linarith
+  have hc : (decide (x > p.1) && decide (x ≤ q.1)) = true := by simp [h1, h2]
+  unfold curveSegs
+  simp only [hc, if_true]
+  rw [curveSegs_done x q post _ h2 hs]
+  unfold lin
+  field_simp
+  ring
+
+/-- the segment loop over control points that all lie below `x`, then `p`, then `q ≥ x`: the value is that of the segment `(p, q]` -/
+theorem curveSegs_interior (x : Rat) (p q : Rat × Rat) (post : List (Rat × Rat)) (h1 : p.1 < x) (h2 : x ≤ q.1)
+    (hs : (q :: post).Pairwise (fun a b => a.1 < b.1)) :
+    ∀ (pre : List (Rat × Rat)) (prev : Rat × Rat) (acc : Rat), (∀ a ∈ pre, a.1 < x) →
+      curveSegs x prev (pre ++ p :: q :: post) acc = lin p.1 q.1 p.2 q.2 x := by
+  intro pre
+  induction pre with
+  | nil =>
+    intro prev acc _
+    have hnp : ¬(x ≤ p.1) := not_le.mpr h1
+    simp only [List.nil_append]
+    unfold curveSegs
+    simp only [hnp, decide_false, Bool.and_false, Bool.false_eq_true, if_false]
+    exact curveSegs_seg x p q post acc h1 h2 hs
+  | cons a pre ih =>
+    intro prev acc hall
+    have ha : a.1 < x := hall a (List.mem_cons_self ..)
+    have hna : ¬(x ≤ a.1) := not_le.mpr ha
+    simp only [List.cons_append]
+    unfold curveSegs
+    simp only [decide_eq_true_eq, hna, Bool.and_false, Bool.false_eq_true, if_false, decide_false]
+    exact ih a acc (fun b hb => hall b (List.mem_cons_of_mem _ hb))
+
+/-- **interior of the curve**: for control points sorted by strictly increasing raw value, a value in the segment `(p.raw, q.raw]` between two
+consecutive points is mapped onto the straight line through them -/
+theorem curveAt_interior (pre post : List (Rat × Rat)) (p q : Rat × Rat) (x : Rat)
+    (hs : (pre ++ p :: q :: post).Pairwise (fun a b => a.1 < b.1)) (h1 : p.1 < x) (h2 : x ≤ q.1) :
+    curveAt (pre ++ p :: q :: post) x = lin p.1 q.1 p.2 q.2 x := by
+  have hs2 : (p :: q :: post).Pairwise (fun a b => a.1 < b.1) := (List.pairwise_append.mp hs).2.1
+  have hsq : (q :: post).Pairwise (fun a b => a.1 < b.1) := (List.pairwise_cons.mp hs2).2
+  have hpre : ∀ a ∈ pre, a.1 < x := fun a ha =>
+    lt_trans ((List.pairwise_append.mp hs).2.2 a ha p (List.mem_cons_self ..)) h1
+  -- the last control point is `q` or lies above it
+  have hlast : ∀ (l : List (Rat × Rat)) (hl : l ≠ []), (∀ a ∈ l, x ≤ a.1) → ¬(x > (l.getLast hl).1) :=
+    fun l hl h => not_lt.mpr (h _ (List.getLast_mem hl))
+  have hpost : ∀ a ∈ q :: post, x ≤ a.1 := by
+    intro a ha
+    rcases List.mem_cons.mp ha with rfl | ha
+    · exact h2
+    · exact le_trans h2 (le_of_lt ((List.pairwise_cons.mp hsq).1 a ha))
+  have hgl : ∀ (l : List (Rat × Rat)), ¬(x > ((l ++ q :: post).getLast!).1) := by
+    intro l
+    have hne : l ++ q :: post ≠ [] := by simp
+    rw [List.getLast!_of_getLast? (List.getLast?_eq_some_getLast hne)]
+    have : (l ++ q :: post).getLast hne = (q :: post).getLast (by simp) := by
+      rw [List.getLast_append_of_ne_nil]
+    rw [this]
+    exact hlast _ _ hpost
+  cases pre with
+  | nil =>
+    simp only [List.nil_append]
+    unfold curveAt
+    have hl := hgl [p]
+    simp only [List.cons_append, List.nil_append] at hl
+    simp only [hl, if_false]
+    exact curveSegs_seg x p q post _ h1 h2 hsq
+  | cons a pre =>
+    simp only [List.cons_append]
+    unfold curveAt
+    have hl := hgl (a :: pre ++ [p])
+    simp only [List.cons_append, List.append_assoc, List.nil_append] at hl
+    simp only [hl, if_false]
+    exact curveSegs_interior x p q post h1 h2 hsq pre a _ (fun b hb => hpre b (List.mem_cons_of_mem _ hb))
+
+/-- flat above the last control point -/
+theorem curveAt_above (pts : List (Rat × Rat)) (hne : pts ≠ []) (x : Rat) (hx : x > (pts.getLast hne).1) :
+    curveAt pts x = (pts.getLast hne).2 := by
+  cases pts with
+  | nil => exact absurd rfl hne
+  | cons p0 rest =>
+    unfold curveAt
+    have : (p0 :: rest).getLast! = (p0 :: rest).getLast hne := by
+      rw [List.getLast!_of_getLast? (List.getLast?_eq_some_getLast hne)]
+    simp only [this, hx, if_true]
+
+theorem hasDup_false_nodup (l : List Rat) (hd : hasDup l = false) : l.Nodup := by
+  induction l with
+  | nil => exact List.nodup_nil
+  | cons a t ih =>
+    simp only [hasDup, Bool.or_eq_false_iff] at hd
+    refine List.nodup_cons.mpr ⟨?_, ih hd.2⟩
+    intro hm
+    have : t.contains a = true := by simpa using hm
+    rw [this] at hd
+    exact absurd hd.1 (by simp)
+
+/-- the control points of `NormalizeCurve` after sorting: distinct raw values give strictly increasing raw values -/
+theorem sortPairs_strict (raw nv : List Rat) (hl : raw.length = nv.length) (hd : hasDup raw = false) :
+    (sortPairs (List.zip raw nv)).Pairwise (fun a b => a.1 < b.1) := by
+  have hnd : raw.Nodup := hasDup_false_nodup raw hd
+  have hfst : ((sortPairs (List.zip raw nv)).map Prod.fst).Nodup := by
+    have hp := (sortPairs_perm_self (List.zip raw nv)).map Prod.fst
+    have hz : (List.zip raw nv).map Prod.fst = raw := by
+      rw [List.map_fst_zip]; omega
+    rw [hz] at hp
+    exact hp.nodup_iff.mpr hnd
+  have hsorted := sortPairs_sorted (List.zip raw nv)
+  generalize sortPairs (List.zip raw nv) = l at hfst hsorted
+  induction l with
+  | nil => exact List.Pairwise.nil
+  | cons a t ih =>
+    have hs := List.pairwise_cons.mp hsorted
+    rw [List.map_cons] at hfst
+    have hn := List.nodup_cons.mp hfst
+    refine List.pairwise_cons.mpr ⟨?_, ih hn.2 hs.2⟩
+    intro b hb
+    rcases hs.1 b hb with h | ⟨h, _⟩
+    · exact h
+    · exact absurd (h ▸ List.mem_map_of_mem (f := Prod.fst) hb) hn.1
+
+/-- **NormalizeCurve, cell by cell**: the result keeps shape and missing cells of the input, is floating, and each cell holds the curve through the
+sorted control points: flat at or below the first, on the line between two consecutive points, flat above the last -/
+theorem normalizeCurve_spec (ref : LineRef) (a r : Arr) (raw nv : List Rat) (h : curveBody ref a raw nv = .ok r) :
+    raw.length = nv.length ∧ hasDup raw = false ∧ raw ≠ [] ∧
+    (sortPairs (List.zip raw nv)).Pairwise (fun p q => p.1 < q.1) ∧
+    r.dtype = .float ∧ r.shape = a.shape ∧
+    r.cells = a.cells.map fun c => ⟨curveAt (sortPairs (List.zip raw nv)) c.val, c.mask⟩ := by
+  unfold curveBody at h
+  repeat' (first | split at h | (dsimp only at h))
+  all_goals first | cases h | skip
+  rename_i h1 h2 h3
+  have hl : raw.length = nv.length := by simpa using h1
+  have hd : hasDup raw = false := by simpa using h2
+  have hne : raw ≠ [] := by intro e; subst e; simp at h3
+  exact ⟨hl, hd, hne, sortPairs_strict raw nv hl hd, rfl, rfl, rfl⟩
+
+/-- non-vacuity: the curve through (0, 0), (2, 1), (4, -1) at 1, 3, -5, 9 -/
+example : curveAt (sortPairs (List.zip [4, 0, 2] [-1, 0, 1])) 1 = 1 / 2 ∧ curveAt (sortPairs (List.zip [4, 0, 2] [-1, 0, 1])) 3 = 0 ∧
+    curveAt (sortPairs (List.zip [4, 0, 2] [-1, 0, 1])) (-5) = 0 ∧ curveAt (sortPairs (List.zip [4, 0, 2] [-1, 0, 1])) 9 = -1 := by
+  decide +kernel
+
 end MPilot.C08
